@@ -406,6 +406,12 @@ func runC09(c *Ctx) {
 	// R9 (= C02.R18): the refusal is an object of its own, carrying the refused request's id
 	checkRepliesAreFresh(c, "R9")
 	checkOptionErrorRefusesConstruction(c, "R10")
+	// the clause "purely reading requests keep working" at their end points: R11 (= C01.R20) a READ at the end of the
+	// file is answered with EOF, R12 (= C16.R3) a READDIR behind the last entry likewise, R13 (= C05.R1) statvfs asks
+	// the file system about the name it was given
+	checkReadReplyTruthTable(c, "R11")
+	c.withOnly("R3", "R12", func() { runC16(c) })
+	c.withOnlyKeys("R1", "R13", []string{"StatVFS"}, func() { runC05(c) })
 	// R9 (shared with C02.R11): the refusal of a modifying request is addressed by the packet's id()
 	checkIDMethods(c, "R9")
 	checkOpenfilePassthrough(c, "R2")
